@@ -35,6 +35,11 @@ def is_ptr_type(t: str) -> bool:
     return t.strip().endswith("*")
 
 
+C_SIZEOF = {"char": 1, "signed char": 1, "unsigned char": 1, "short": 2, "int": 4,
+            "unsigned int": 4, "long": 8, "unsigned long": 8, "long long": 8,
+            "float": 4, "double": 8, "size_t": 8}     # LP64
+
+
 @dataclass
 class Access:
     base: str
@@ -168,10 +173,15 @@ class CInterp:
                 return ("float", None)
             if fn in ("__builtin_alloca", "alloca", "malloc"):
                 return ("alloca", e)
+            if fn in ("memset", "__builtin_memset") and len(e.a[1]) == 3:
+                return self.memset(e)
             if fn in self.cfuncs and self.inline_depth < 4:
                 return self.inline(self.cfuncs[fn], e)
             self.err(e, f"call of unknown function `{fn}`")
         if k == "sizeof":
+            sz = C_SIZEOF.get(strip_qual(str(e.a[0]))) if e.a else None
+            if sz is not None:
+                return ("int", Poly.const(sz))
             return ("int", self.fresh("sizeof"))
         if k == "cond":
             self.ev(e.a[0])
@@ -194,6 +204,29 @@ class CInterp:
             self.assign(e.a[0], v, e)
             return v
         self.err(e, f"unsupported expression `{pp(e)}` ({k})")
+
+    def memset(self, e: X):
+        """memset(p, c, n): a write of every element p[0 .. n/sizeof(*p) - 1]
+        (recorded like a loop over them); with c == 0 the elements hold 0."""
+        p = self.ev(e.a[1][0])
+        n = self.ev(e.a[1][2])
+        c = e.a[1][1]
+        if p[0] != "ptr" or n[0] != "int":
+            self.err(e, f"unsupported memset `{pp(e)}`")
+        es = C_SIZEOF.get(strip_qual(self.elem_type(p[1]) or ""))
+        if not es or any(v % es for v in n[1].t.values()):
+            self.err(e, f"memset length `{pp(e.a[1][2])}` is not a whole number of "
+                        f"elements of `{p[1]}`")
+        count = Poly({k_: v // es for k_, v in n[1].t.items()})
+        name = f"memset#{next(self.unknown_id)}"
+        self.syms[name] = Sym(name, Poly(), count - Poly.const(1), origin="loop")
+        self.accesses.append(Access(p[1], p[2] + Poly.sym(name), "w", e.line, pp(e),
+                                    tuple(self.facts), self.cond_depth,
+                                    tuple(self.active_loops) + (name,)))
+        t = self.elem_type(p[1])
+        if t and is_int_type(t) and c.k == "num" and c.a[0] == 0:
+            self.content.setdefault(p[1], []).append((Poly.const(0), e.line))
+        return ("unk",)
 
     def inline(self, callee: CFunc, e: X):
         """Evaluate a call of a function defined in the same file by running its
